@@ -45,7 +45,8 @@ fn cat_db(d: &[u64]) -> String {
         Some((id, name)) => format!("!category {} \"{}\"\n{}\n!endcategory\n", id, name, def),
     };
     let base = if d[0] == 0 { "foo !" } else { "foo !foolong" };
-    format!("{}{}{}", wrap(d[1], base), wrap(d[2], "bar 2 foo"), wrap(d[3], "baz 3 foo"))
+    // ... and a unit that is worth nothing, which is a unit of that dimensionality all the same
+    format!("{}{}{}nil 0 foo\n", wrap(d[1], base), wrap(d[2], "bar 2 foo"), wrap(d[3], "baz 3 foo"))
 }
 
 fn score(d: &Dims) -> i64 {
@@ -206,7 +207,7 @@ impl Space for C17 {
         Meta {
             id: "C17",
             level: "exploration",
-            rule: "every named quantity, every dimensionality occurring in the registry and every product of up to 2 (thorough 3) base units with exponents in -3..3, each written as the quantity name, as a unit of that dimensionality, as a product of base units, and as that product with an extra factor raised to the power 0 (`p b^0`, `(p)^0 p`): `units for X` must list exactly the non-alias units of the registry dump with that exponent vector (plus the base unit itself for a single base unit to the first power), each once, under its own category's display name, with non-empty non-repeated groups, identically for all spellings; `factorize X` (complexity score bounded) must return only products of quantities whose exponent vectors multiply out to X's, no duplicates, identically for all spellings. Plus a second, small database with its own quantity names asked on the same thread after the bundled one, and the same database after a further load renamed a quantity: every name in an answer must belong to the context that was asked. Plus 54 small databases with categories (a base unit with or without a long name and two derived units, each in `Category A`, `Category B` or none) x 4 spellings: every unit once, under its own category, no category listed twice, none missing. Non-trivial = all; distinct by (command, dimensionality)".into(),
+            rule: "every named quantity, every dimensionality occurring in the registry and every product of up to 2 (thorough 3) base units with exponents in -3..3, each written as the quantity name, as a unit of that dimensionality, as a product of base units, and as that product with an extra factor raised to the power 0 (`p b^0`, `(p)^0 p`): `units for X` must list exactly the non-alias units of the registry dump with that exponent vector (plus the base unit itself for a single base unit to the first power), each once, under its own category's display name, with non-empty non-repeated groups, identically for all spellings; `factorize X` (complexity score bounded) must return only products of quantities whose exponent vectors multiply out to X's, no duplicates, identically for all spellings. Plus a second, small database with its own quantity names asked on the same thread after the bundled one, and the same database after a further load renamed a quantity: every name in an answer must belong to the context that was asked. Plus 54 small databases with categories (a base unit with or without a long name and two derived units, each in `Category A`, `Category B` or none, plus a zero-valued unit) x 4 spellings: every unit once, under its own category, no category listed twice, none missing. Non-trivial = all; distinct by (command, dimensionality)".into(),
             assumptions: vec![
                 "factorize beyond the complexity bound is exponential: not explored here (C04 records it); a timeout inside the bound is recorded, not judged".into(),
             ],
@@ -288,12 +289,12 @@ impl Space for C17 {
                     }
                     // the list is for the dimensionality of the query: `foo` for all but the last query
                     if d[4] != 3 {
-                        for n in ["bar", "baz", base_name] {
+                        for n in ["bar", "baz", "nil", base_name] {
                             if !seen_units.iter().any(|u| u == n) {
                                 out = out.viol("units for: a unit of the small database is missing", format!("`{}` on {:?}: {}", q, text, n));
                             }
                         }
-                        if seen_units.len() != 3 {
+                        if seen_units.len() != 4 {
                             out = out.viol("units for: lists a name that is not a unit of that dimensionality in the context that was asked", format!("`{}` on {:?}: {:?}", q, text, seen_units));
                         }
                     }
